@@ -109,6 +109,9 @@ def rule_k1(ctx: Ctx) -> None:
         return
     ctx.ok("C06-K1", f.where, f"cell ({xs}, {ys}) shaded iff is_shaded(R) and is_pointfree(R) for the same region R, for every cell of the induced grid", cond, f)
     rets = [st for st in f.body if isinstance(st, ast.Return)]
+    if not rets or rets[-1].value is None or f.body[-1] is not rets[-1]:
+        ctx.violation("C06-K1", f, f.node, "sub_mesh_pattern does not end by returning the induced mesh pattern")
+        return
     if unparse(rets[-1].value) == f"MeshPatt({patt_name}, {sh_name})":
         ctx.ok("C06-K1", f.where, "result = MeshPatt(induced pattern, induced shading)", rets[-1], f)
     else:
